@@ -51,6 +51,9 @@ CHECKS = {
  "C09": dict(cat="model_checking", ref="§3 C09",
    text="All interleavings of Send/deliver of two parties (per-side budgets incl. one-directional streams, optional refresh while encrypted). The monitor recomputes every receiving MAC key each party can form. Safety on every emitted data message: each disclosed value is a receiving MAC key of the discloser and, on a clone taken right after the send, a forged message for that key pair with a fresh counter and a correct MAC under the disclosed key is rejected. Liveness at every maximal path after a flush message each way: every key that authenticated an accepted message and whose pair is retired has been disclosed.",
    tech="explicit-state model checking of the implementation with behavioural forged-message probes on cloned states"),
+ "C08": dict(cat="model_checking", ref="§3 C08",
+   text="Explicit-state exploration of session histories (texts with rotation, End on either side, refresh, SMP with answer or abort, all delivery interleavings within an event budget). After every API call the log of the deterministic randomness source is classified and a reference lifetime model driven by observable progress says which draws are dead; a reflective walk of the whole conversation object graph (buffers to full capacity, big.Int words) must not contain a dead DH exponent, exchange secret or session secret, nor any text given to Send other than the most recent / still queued ones, and the buffer that received a dead DH exponent must have been zeroed.",
+   tech="explicit-state model checking of the implementation with an object-graph scan against a reference secret-lifetime model"),
 }
 NA_REASON = "check not built yet (work in progress; see DESIGN.md §3 for the planned bounded exploration)"
 def main():
